@@ -14,6 +14,7 @@
 -/
 import Proofs.GoTieUnwrap
 import Proofs.GoTieDecrypt
+import Proofs.GoTieAead
 namespace AgeModel
 namespace Tie.C04
 
@@ -41,6 +42,25 @@ theorem decrypt_tie (P : Prims) {ι : Type} (E : GoTie.DecryptEnv P ι) (file : 
       | .error (.fatal _) => res.2 ≠ none ∧ res.2 ≠ Extracted.age_ErrIncorrectIdentity
       | .error e => res = ([], GoTie.decryptErr e none) :=
   GoTie.decrypt_tie P E file ids
+
+/-! The innermost step: `aeadDecrypt` of package age and of agessh, translated with
+ChaCha20-Poly1305 abstract. A stanza body that does not open under the derived key gives the AEAD's
+authentication error and NO bytes (what the identities turn into "incorrect identity"); in package
+age a body of the wrong length is refused before it is opened. -/
+
+theorem aeadDecrypt_tie {α : Type} {P : Prims} (E : GoTie.WrapAeadEnv α P) (k ct : Bytes) (size : Nat)
+    (hk : k.length = 32) :
+    Extracted.age_aeadDecrypt E.New E.over E.open_ k size ct = .ok (match aeadDecryptSized P k size ct with
+      | .key fk => (fk, none)
+      | .fatal => ([], Extracted.age_errIncorrectCiphertextSize)
+      | .incorrect => ([], some E.eAuth)) :=
+  GoTie.aeadDecrypt_tie E k ct size hk
+
+theorem ssh_aeadDecrypt_tie {α : Type} {P : Prims} (E : GoTie.WrapAeadEnv α P) (k ct : Bytes) (hk : k.length = 32) :
+    Extracted.agessh_aeadDecrypt E.New E.open_ k ct = .ok (match P.wrapOpen k ct with
+      | some fk => (fk, none)
+      | none => ([], some E.eAuth)) :=
+  GoTie.ssh_aeadDecrypt_tie E k ct hk
 
 end Tie.C04
 end AgeModel
